@@ -146,16 +146,33 @@ class AttributeWordRoundTrip(Lemma):
                 paths = [(cs, rec) for cs, ret, rec in paths if not (isinstance(ret, tuple) and ret and ret[0] == "infeasible") and "attributes" in rec]
                 if not paths:
                     raise Unsupported("anchor lost: no path of _make_file_info stores an attribute word")
-                S = one_input(it, "b", ".is_symlink()")
+                def opt(kind, suffix):
+                    hits = [v for (k, name), v in it.inputs.items() if k == kind and name.endswith(suffix)]
+                    if len(hits) > 1:
+                        raise Unsupported("anchor lost: several inputs end in %r" % suffix)
+                    return hits[0] if hits else None
+
                 D = one_input(it, "b", "dereference")
-                isdir = one_input(it, "b", ".is_dir()")
                 lmode = one_input(it, "i", ".lstat().st_mode")
-                smode = one_input(it, "i", ".stat().st_mode")
+                smode = opt("i", ".stat().st_mode")
+                if smode is None:
+                    smode = z3.BitVec("unused.stat().st_mode", 64)
+                fmt = lambda m, kind: (m & bv(0o170000)) == bv(kind)
+                S = fmt(lmode, 0o120000)
+                # assumed contracts of pathlib (documented behaviour): is_symlink() tests the lstat mode, is_dir() and
+                # is_file() follow links (test the stat mode); for an object that is not a link stat == lstat
+                axioms = [z3.Implies(z3.Not(S), smode == lmode)]
+                for suffix, rhs in ((".is_symlink()", S), (".is_dir()", fmt(smode, 0o040000)), (".is_file()", fmt(smode, 0o100000))):
+                    a = opt("b", suffix)
+                    if a is not None:
+                        axioms.append(a == rhs)
+                for ax in axioms:
+                    c.assume(V.SBool(ax))
                 # what the member IS, from the statement of the property: a link unless dereferenced; a dereferenced
                 # link is what it points to; permission bits are those of the object that is stored
                 link = z3.And(S, z3.Not(D))
                 followed = z3.And(S, D)
-                directory = z3.Or(z3.And(followed, (smode & bv(0o170000)) == bv(0o040000)), z3.And(z3.Not(S), isdir))
+                directory = z3.If(followed, fmt(smode, 0o040000), fmt(lmode, 0o040000))
                 mode = z3.If(followed, smode, lmode)
                 goals = []
                 for conds, rec in paths:
